@@ -15,6 +15,18 @@ CHECKS = {
              'the model is compared with the real decoder on exhaustive short headers, random and mutated inputs; CONNECT over-read is a known finding.',
         design_ref='§5 C02', technique='Lean 4 proof (total functions, well-founded loops) + differential correspondence',
         note=TB + 'Ownership (no aliasing of the input buffer) is validated by the harness only.'),
+    'C04': dict(
+        text='match_correct / search_correct (the trie lookup returns exactly the values stored under §4.7-matching filters resp. names, for every trie, name and filter), '
+             'duplicate-freeness, agreement of the two directions, first-match variants and walk = split are Lean theorems; the model and the five-line §4.7 '
+             'specification are both compared with the real topic.Tree on exhaustive small filter/name universes and random deep ones.',
+        design_ref='§5 C04', technique='Lean 4 proof (induction on level lists over a nested-inductive trie) + differential correspondence',
+        note=TB + 'Go map iteration order canonicalised by sorting.'),
+    'C05': dict(
+        text='Refinement of the trie to a plain topic->value-list map for every operation history (step_refines/refines_all), pruning, history independence (canonical), '
+             'count/all/get/match/search equal to the map\'s answers are Lean theorems; the real tree is compared with model and map on exhaustive short and random long histories; '
+             'snapshot/aliasing/history-independence monitors run on the real tree. Partial: atomicity under concurrency rests on the mutex + race detector.',
+        design_ref='§5 C05', technique='Lean 4 proof (refinement to an abstract map, invariants by induction over operations) + differential correspondence',
+        note=TB + 'Concurrency and aliasing are outside the value model (partial).'),
     'C18': dict(
         text='Never-zero ids, the closed form of the allocation sequence and pairwise distinctness of any 65535 consecutive ids from every start state '
              '(arithmetic proof, no enumeration), reset, and the refinement of the packet store to a map id -> last packet for every history are Lean theorems; '
